@@ -45,7 +45,7 @@ PROBES = ["invivo_pipeline_reads_checked", "invivo_restored_items_checked", "inv
           "absent_read", "fault_write_enospc", "fault_write_torn", "fault_read_eio", "fault_reported",
           "read_after_fault_ok", "restart_after_fault", "dict_restore", "xprocess_restart", "numpy_integer_key", "two_failed_writes_in_one_op",
           "invivo_history_run_ok", "invivo_history_ws_plain", "invivo_history_ws_symlink", "invivo_history_ws_symlink_parent", "invivo_history_ws_symlink_sub",
-          "failed_save", "failed_resave_of_active_item", "mixed_kind_column_refused"]
+          "failed_save", "failed_resave_of_active_item", "mixed_kind_column_refused", "invivo_debug_run"]
 # the same check again, smaller, in interpreters started with assertions stripped (python -O / PYTHONOPTIMIZE=1)
 ENV_VARIANTS = [{"name": "python-O", "env": {"PYTHONOPTIMIZE": "1"}, "runs": {'quick': 900, 'thorough': 9000}}]
 TIERS = {
@@ -396,7 +396,7 @@ def execute_invivo(trace):
     if st.get("c15_xprocess_items"):
         probes["invivo_xprocess_items_checked"] = st["c15_xprocess_items"]
     for k_, v_ in st.items():
-        if k_.startswith("history_"):
+        if k_.startswith("history_") or k_ == "debug_run":
             probes["invivo_" + k_] = v_
     violation = None
     known = load_known(PID)
